@@ -151,8 +151,11 @@ def systems(tier):
             ("builder-dp5-exact", C01System("builder-dp5-exact", 5, exact), 3, None),
             ("builder-dp1-rounding", C01System("builder-dp1-rounding", 1, rough, tracers=False), 3, None),
             ("core-dp5", C01System("core-dp5", 5, exact, cls=GCodeCore), 3, None),
+            ("builder-dp0-integers", C01System("builder-dp0-integers", 0, (0, 120, -10), tracers=False), 3, None),
         ]
     return [
+        ("builder-dp0-integers", C01System("builder-dp0-integers", 0, (0, 120, -10), tracers=True), 3, None),
+        ("builder-dp12", C01System("builder-dp12", 12, (0, 0.1, -2.675), tracers=False), 3, None),
         ("builder-dp5-exact", C01System("builder-dp5-exact", 5, exact), 4, None),
         ("builder-dp1-rounding", C01System("builder-dp1-rounding", 1, rough, tracers=True), 3, None),
         ("builder-dp1-rounding-notrace", C01System("builder-dp1-rounding-notrace", 1, rough, tracers=False), 4, None),
